@@ -23,6 +23,28 @@ func init() {
 
 var c15Tokens = []string{"%w", "%v", "%d", "%s", "%5w", "%-8w", "%+w", "%[1]w", "%[2]w", "%[3]w", "%*w", "%%", "lit ", "w"}
 
+// c15BaseTokens: the tokens of the exhaustive program enumeration; c15Tokens continues with the whole
+// %w directive grammar (32 flag subsets x width x precision x explicit index), used one directive at a time.
+const c15BaseTokens = 14
+
+func init() {
+	if len(c15Tokens) != c15BaseTokens {
+		panic("c15BaseTokens out of date")
+	}
+	for fl := 0; fl < 32; fl++ {
+		for _, wid := range []string{"", "5", "*"} {
+			for _, prec := range []string{"", ".2"} {
+				for _, idx := range []string{"", "[1]", "[2]"} {
+					if wid == "*" && idx != "" {
+						continue
+					}
+					c15Tokens = append(c15Tokens, "%"+Directive{Flags: fl}.flagString()+wid+prec+idx+"w")
+				}
+			}
+		}
+	}
+}
+
 type c15Case struct {
 	Toks []int `json:"tokens"`
 	Ops  []int `json:"operands"`
@@ -169,9 +191,26 @@ func c15Eval(cs c15Case, seen func(string)) (string, string) {
 			cands = append(cands, map[int]bool{wp: true})
 		}
 	}
+	// '#' on %w: the fork ignores it, %#v prints Go syntax and fmt.Errorf prints "&%!w(...)": no reference for
+	// the text; the returned error is still checked
+	sharpW := false
+	for _, wp := range wpos {
+		if strings.Contains(c15Tokens[cs.Toks[wp]], "#") {
+			sharpW = true
+		}
+	}
 	matched := -2
 	var matchedW int = -1
+	if sharpW {
+		matched = -1
+		if len(wpos) == 1 && usable(wpos[0]) {
+			matchedW = wpos[0]
+		}
+	}
 	for ci, S := range cands {
+		if sharpW {
+			break
+		}
 		if string(redact.Sprintf(buildFormat(cs.Toks, S, -1), args...)) == string(text) {
 			matched = ci
 			for k := range S {
@@ -185,7 +224,7 @@ func c15Eval(cs c15Case, seen func(string)) (string, string) {
 	if matched == -2 {
 		return "text", desc + ": the text is not Sprintf's with at most one (correctly used) %w rendered like %v"
 	}
-	if len(wpos) == 1 {
+	if len(wpos) == 1 && !sharpW {
 		if usable(wpos[0]) && matchedW != wpos[0] && string(redact.Sprintf(buildFormat(cs.Toks, map[int]bool{wpos[0]: true}, -1), args...)) != string(text) {
 			return "text", desc + ": a correctly used %w must render like %v"
 		}
@@ -217,11 +256,11 @@ func c15Eval(cs c15Case, seen func(string)) (string, string) {
 		return "error", desc + fmt.Sprintf(": returned error %v, want %v", gotErr, wantErr)
 	}
 	// agreement with fmt.Errorf for <=1 %w and unwrapped operands
-	if len(wpos) <= 1 {
+	if len(wpos) <= 1 && !sharpW {
 		plain := true
 		for _, wp := range wpos {
 			// Go >= 1.20 treats the flags of %w like those of %v even when %w is misused (release drift)
-			if c15Tokens[cs.Toks[wp]] == "%+w" && !usable(wp) {
+			if strings.Contains(c15Tokens[cs.Toks[wp]], "+") && !usable(wp) {
 				plain = false
 			}
 		}
@@ -257,7 +296,7 @@ func checkC15(c *Ctx) {
 	if !c.Quick() {
 		k = 4
 	}
-	nT, nO := len(c15Tokens), len(c15Operands)
+	nT, nO := c15BaseTokens, len(c15Operands)
 	fe := NewStrEnum(make([]string, nT), k)
 	oe := NewStrEnum(make([]string, nO), 3)
 	c.Section("C15/helper", map[string]interface{}{"tokens": c15Tokens, "max_tokens": k, "operand_kinds": nO, "max_operands": 3, "preceding_calls": len(c15Pre)}, fe.Total, func(i int, w *Worker) {
@@ -282,5 +321,28 @@ func checkC15(c *Ctx) {
 			w.Sample(map[string]interface{}{"format": f, "operands": "err1, err2", "text": q(string(t)), "err": fmt.Sprint(e)})
 		}
 	})
+	// the whole %w directive grammar, one directive at a time, alone and next to other directives
+	nX := len(c15Tokens) - c15BaseTokens
+	ctxs := [][]int{{-1}, {1, -1}, {-1, 2}, {12, -1, 12}, {-1, 0}, {0, -1}}
+	oe2 := NewStrEnum(make([]string, nO), 2)
+	c.Section("C15/w-grammar", map[string]interface{}{"w_directives": nX, "grammar": "32 flag subsets x width {none,5,*} x precision {none,.2} x index {none,[1],[2]}", "contexts": "alone, after %v, before %d, between literals, before/after a plain %w", "operand_lists": oe2.Total}, nX, func(i int, w *Worker) {
+		for _, cx := range ctxs {
+			toks := make([]int, len(cx))
+			for j, t := range cx {
+				if t < 0 {
+					t = c15BaseTokens + i
+				}
+				toks[j] = t
+			}
+			for oi := 0; oi < oe2.Total; oi++ {
+				cs := c15Case{Toks: toks, Ops: oe2.Tokens(oi), Pre: (i + oi) % len(c15Pre)}
+				w.Eval()
+				if cl, d := c15Eval(cs, w.SeenS); d != "" {
+					w.Fail(cl, cs, d)
+				}
+			}
+		}
+	})
+	replayers["C15/w-grammar"] = replayers["C15/helper"]
 	c.Assume("the reference for argument consumption is this sandbox's fmt run on the same format with %w rewritten to %v/%Z and sentinel operands")
 }
